@@ -9,7 +9,9 @@ PROFILES = ["release"]
 SHRINK_SEP = None
 RULE = ("cases: exhaustive cube for egcd, exhaustive square for gcd/lcm (i64), every (a1,m1,a2,m2) with small moduli for crt, "
         "every 8-bit operand pair for i8/u8 (sampled 1/3 in quick), boundary-biased samples up to 2^20 (egcd, crt) and over the "
-        "whole range of each of the 12 integer types (gcd, lcm); a small stream of egcd/crt cases far outside the 2^20 box (operands "
+        "whole range of each of the 12 integer types (gcd, lcm; operands as decimal strings parsed by the type itself, so u128 up to 2^128-1; "
+        "families: boundary, unsigned upper half, lcm representable but operand product not — see histogram keys operand_in_upper_half_*, "
+        "lcm_fits_but_product_overflows_*, operand_above_2^100_*); a small stream of egcd/crt cases far outside the 2^20 box (operands "
         "up to 2^62) where the property says nothing (`S any`) but the checked i64 model must reproduce every overflow panic; non-trivial = distinct case inside the property's domain "
         "(spec answer not `any`) with at least one operand of magnitude > 1")
 ASSUMPTIONS = [
